@@ -25,7 +25,7 @@ static const char *const rg_menu[NPARTS][RG_MAXMENU] = {
 	[P_YDAY] = {"1", "60", "366", "-1", "100,200,-100"},
 	[P_MDAY] = {"1", "15", "31", "-1", "29,30,31", "-1,-2", "1,-1"},
 	[P_DAY] = {"MO", "SA,SU", "TU,TH", "MO,WE,FR", "MO,TU,WE,TH,FR,SA,SU"},
-	[P_DAYORD] = {"1MO", "-1FR", "5MO", "2TU,-2TU"},
+	[P_DAYORD] = {"1MO", "-1FR", "5MO", "2TU,-2TU", "53MO", "-53MO", "20WE,-20WE"},
 	[P_HOUR] = {"0", "9", "23", "9,17", "0,6,12,18"},
 	[P_MIN] = {"0", "30", "59", "45,59", "0,15,30,45"},
 	[P_SEC] = {"0", "30", "0,59", "31,45"},
@@ -103,7 +103,17 @@ static const char*
 rg_kind(int part, const char *v)
 {
 	int l[64], n, np = 0, nn = 0, nz = 0;
-	if (part == P_DAYORD) return "ordinal";
+	if (part == P_DAYORD) {
+		int big = 0;
+		for (const char *q = v; *q;) {
+			char *on;
+			long o = strtol(q, &on, 10);
+			big |= o > 5 || o < -5;
+			q = on + 2;
+			if (*q == ',') q++;
+		}
+		return big ? "ordinal-big" : "ordinal";
+	}
 	if (part == P_DAY) return strchr(v, ',') ? "many" : "one";
 	n = rg_list(l, 64, v);
 	for (int i = 0; i < n; i++) np += l[i] > 0, nn += l[i] < 0, nz += l[i] == 0;
